@@ -3,3 +3,4 @@ import Adc.Canon
 import Adc.Steps
 import Adc.Wick
 import Adc.Indices
+import Adc.Unitary
